@@ -957,5 +957,9 @@ def _render_error(template, context, error):
                 )
             ]
 
+        # the error template runs with a loop context of its own; a "loop"
+        # given to a template that has enable_loop off must not keep the
+        # error page from being rendered
+        context._data.pop("loop", None)
         context._set_with_template(error_template)
         error_template.render_context(context, error=error)
